@@ -120,12 +120,15 @@ Record quirks := mkQ {
   q_method_case : bool;    (* solve() compares the un-lowered method string: case variants run no loop and fail on `info` *)
   q_be_single : bool;      (* backward Euler on a one-level time grid never binds `info`: UnboundLocalError *)
   q_tobs_all : bool;       (* "final time" test is np.all(time_steps[-1:] == time_obs): broadcasts over time_obs *)
-  q_spline_route : bool    (* only (equal grids, final time) is restricted directly; every other request, also one whose nodes and
+  q_spline_route : bool;   (* only (equal grids, final time) is restricted directly; every other request, also one whose nodes and
                               times all coincide with stored ones, goes through RectBivariateSpline (open finding; repair proposed) *)
+  q_subgrid_route : bool   (* ... and, once coinciding TIMES are restricted on equal grids (minimal repair), a proper sub-grid of
+                              solution nodes still goes through the spline (true) or is restricted as well (full repair: false) *)
 }.
-Definition quirks_code := mkQ true true true true.          (* the code as first met *)
-Definition quirks_fixed := mkQ false false false true.      (* after the three repairs that are applied in /repo *)
-Definition quirks_repaired := mkQ false false false false.  (* ... and after fixes/C18_observe_restrict_coinciding.diff *)
+Definition quirks_code := mkQ true true true true true.           (* the code as first met *)
+Definition quirks_fixed := mkQ false false false true true.       (* after the three repairs that are applied in /repo *)
+Definition quirks_minimal := mkQ false false false false true.    (* ... after fixes/C18_observe_restrict_minimal.diff (equal grids, stored times) *)
+Definition quirks_repaired := mkQ false false false false false.  (* ... after fixes/C18_observe_restrict_coinciding.diff (sub-grids too) *)
 
 (* ================================================================================================ *)
 Section PDE.
@@ -268,6 +271,7 @@ Variable interp2 : qv -> qv -> list qv -> qv -> qv -> res qm.
    time_obs entries in time_steps (first occurrence). *)
 Definition coincide_rows (G : grids) (levels : list qv) : option (list nat) :=
   if g_eq G then Some (seq 0 (length (hd [] levels)))
+  else if q_subgrid_route Q then None
   else match g_sol G, g_obs G with
        | Some gs, Some go => opt_all (map (fun x => index_of x gs) go)
        | _, _ => None
@@ -604,4 +608,15 @@ Definition check_observe_2dspace (q : quirks) (gs go : grid) (times : qv) (ta : 
   match parse_time_obs times ta with
   | Er _ => false
   | Ok tobs => res_close (list_eqb qcll_eqb) observed (td_observe_2dspace q (init_grids gs go) times tobs levels)
+  end.
+
+(* observe() alone, on an arbitrary solution array handed in by the caller (no solve): used with exactly bicubic data *)
+Definition check_td_observe (q : quirks) (gs go : grid) (times : qv) (ta : tobs_arg) (om : omap_code) (itbl : list i2entry)
+           (otol : Q) (levels : list qv) (observed : res (bool * arr)) : bool :=
+  match parse_time_obs times ta with
+  | Er _ => false
+  | Ok tobs =>
+      res_close (obs_close otol (td_floor om levels)) observed
+                (td_observe q (omap_fun om) (interp2_of 0%Q itbl) (init_grids gs go) times tobs levels)
+      && forallb i2_law_ok itbl
   end.
